@@ -36,8 +36,8 @@ fn plan(tier: Tier) -> Vec<Unit> {
         }
         Tier::Thorough => {
             let mut v = crate::util::split_budget("grid", GRID_LEN * GRID_SCALES, 101);
-            v.extend(crate::util::split_budget("random", 3_000_000, 5_000));
-            v.extend(crate::util::split_budget("zeros", 20_000, 1_000));
+            v.extend(crate::util::split_budget("random", 30_000_000, 20_000));
+            v.extend(crate::util::split_budget("zeros", 200_000, 2_000));
             v
         }
         Tier::Miri => crate::util::split_budget("random", 6, 3),
